@@ -629,22 +629,31 @@ func accumulatedFromNonEmptyMap(c *Ctx, s boundSite) bool {
 				}
 			}
 		}
-		if appended && c.lenFactsExclude(s.f, ml.rng.X, 1, s.in.Block()) {
+		// the site lies after the loop, and the loop visits every element (no early exit)
+		if ml.body[s.in.Block()] {
+			continue
+		}
+		exhaustive := true
+		for b := range ml.body {
+			if b == ml.header || !reaches(b, ml.header) {
+				continue
+			}
+			for _, sc := range b.Succs {
+				if !ml.body[sc] && !c.failing(sc) {
+					exhaustive = false
+				}
+			}
+		}
+		if appended && exhaustive && c.lenFactsExclude(s.f, ml.rng.X, 1, s.in.Block()) {
 			return true
 		}
 	}
 	return false
 }
 
-var c15BoundTable = map[string]boundEntry{
-	"in_toto.ReduceStepsMetadata | keyIDs[0]": {"keyIDs receives one element per entry of linksPerStep in an unconditional append, and len(linksPerStep) >= 1 is known here (the guard above fails otherwise)", accumulatedFromNonEmptyMap},
-	"in_toto.matchChunk | s[0]":               {"under !failed: the loop head sets failed when s is empty, and s only shrinks under !failed, so failed == false implies len(s) > 0", phiFalseAt("failed")},
-	"in_toto.matchChunk | s[1:]":              {"under !failed: as s[0]", phiFalseAt("failed")},
-	"in_toto.scanChunk | pattern[0:i]": {"i is the scan position: it starts at 0 and advances by one per iteration, or by two only under i+1 < len(pattern); the loop exits at the latest with i == len(pattern)", func(c *Ctx, s boundSite) bool {
-		return true
-	}},
-	"in_toto.scanChunk | pattern[i:]": {"as pattern[0:i]", func(c *Ctx, s boundSite) bool { return true }},
-}
+// reviewed entries (function | expression -> reason + checked fact). Empty at present: every site of the current tree
+// is discharged by a general idiom; the table remains for sites that need a reviewed argument.
+var c15BoundTable = map[string]boundEntry{}
 
 func (c *Ctx) boundSites(f *ssa.Function) []boundSite {
 	var out []boundSite
@@ -812,6 +821,22 @@ func (c *Ctx) dischargeBound(s boundSite) (string, bool) {
 				}
 			}
 		}
+		// x[i:], x[:i], x[0:i] with i a scan position: starts at a non-negative constant, only grows by +1 steps that are
+		// taken where the value before the step is below len(x) (inductive invariant 0 <= i <= len(x))
+		scanPos := func(v ssa.Value) bool {
+			if v == nil {
+				return true
+			}
+			if k, isK := constInt(v); isK && k == 0 {
+				return true
+			}
+			return c.atMostLenInv(s.f, v, s.x, map[ssa.Value]bool{}, 0)
+		}
+		if (s.low != nil || s.high != nil) && scanPos(s.low) && scanPos(s.high) {
+			if s.low == nil || s.high == nil || isZeroConst(s.low) {
+				return "scan position: 0 <= i <= len is an inductive invariant of its increments", true
+			}
+		}
 		// x[:i] with i from strings.Index tested != -1
 		if s.low == nil && s.high != nil {
 			if ic, ok := s.high.(*ssa.Call); ok && calleeName(ic) == "strings.Index" && resolve(ic.Call.Args[0], ic) == resolve(s.x, nil) && c.indexFound(ic, blk) {
@@ -850,6 +875,12 @@ func ruleC15_3(c *Ctx) {
 				} else {
 					c.ok(R, fname(f), s.descr, s.in.Pos(), why)
 				}
+				continue
+			}
+			// general idiom: a slice that received one unconditional append per element of a map known to be non-empty
+			// here has at least one element: x[0], x[1:], x[:1]
+			if need, okNeed := constNeed(s); okNeed && need <= 1 && accumulatedFromNonEmptyMap(c, s) {
+				c.ok(R, fname(f), s.descr, s.in.Pos(), "one unconditional append per element of a map known non-empty here: len >= 1")
 				continue
 			}
 			key := fname(f) + " | " + s.descr
@@ -1226,4 +1257,139 @@ func countsUpFromNonNegative(ph *ssa.Phi) bool {
 		return false
 	}
 	return len(ph.Edges) > 0
+}
+
+// constNeed: the minimal length the index / slice expression needs when its bounds are constants.
+func constNeed(s boundSite) (int64, bool) {
+	if s.idx != nil {
+		if k, ok := constInt(s.idx); ok && k >= 0 {
+			return k + 1, true
+		}
+		return 0, false
+	}
+	need := int64(0)
+	for _, v := range []ssa.Value{s.low, s.high} {
+		if v == nil {
+			continue
+		}
+		k, ok := constInt(v)
+		if !ok || k < 0 {
+			return 0, false
+		}
+		if k > need {
+			need = k
+		}
+	}
+	return need, true
+}
+
+func isZeroConst(v ssa.Value) bool {
+	k, ok := constInt(v)
+	return ok && k == 0
+}
+
+// atMostLenInv: 0 <= v <= len(x) as an inductive invariant. v is a non-negative constant 0, a phi all of whose
+// incoming values satisfy the invariant (coinductively for the phi itself), or a+1 where a satisfies the invariant and
+// a < len(x) is known where the increment is computed.
+func (c *Ctx) atMostLenInv(f *ssa.Function, v, x ssa.Value, visiting map[ssa.Value]bool, depth int) bool {
+	if depth > 12 {
+		return false
+	}
+	if isZeroConst(v) {
+		return true
+	}
+	if visiting[v] {
+		return true
+	}
+	switch y := v.(type) {
+	case *ssa.Phi:
+		visiting[y] = true
+		defer delete(visiting, y)
+		for _, e := range y.Edges {
+			if !c.atMostLenInv(f, e, x, visiting, depth+1) {
+				return false
+			}
+		}
+		return len(y.Edges) > 0
+	case *ssa.BinOp:
+		if y.Op != token.ADD {
+			return false
+		}
+		if k, ok := constInt(y.Y); !ok || k != 1 {
+			return false
+		}
+		if !c.atMostLenInv(f, y.X, x, visiting, depth+1) {
+			return false
+		}
+		return c.belowLenDeep(f, y.X, x, y.Block(), nil, 0)
+	}
+	return false
+}
+
+// belowLenDeep: a < len(x) at blk (or on the edge blk->succ): by a branch fact on a or on a structurally equal
+// expression (go/ssa does no CSE: `i+1 < len(p)` and the later `i++` are different values), or, for a phi, on every
+// incoming edge.
+func (c *Ctx) belowLenDeep(f *ssa.Function, a, x ssa.Value, blk, succ *ssa.BasicBlock, depth int) bool {
+	if depth > 6 {
+		return false
+	}
+	cands := []ssa.Value{a}
+	if bo, ok := a.(*ssa.BinOp); ok && bo.Op == token.ADD {
+		if k, isK := constInt(bo.Y); isK {
+			for _, b := range f.Blocks {
+				for _, in := range b.Instrs {
+					if b2, ok := in.(*ssa.BinOp); ok && b2 != bo && b2.Op == token.ADD && b2.X == bo.X {
+						if k2, isK2 := constInt(b2.Y); isK2 && k2 == k {
+							cands = append(cands, b2)
+						}
+					}
+				}
+			}
+		}
+	}
+	for _, cand := range cands {
+		if c.varBelowLen(f, cand, x, blk, 0) {
+			return true
+		}
+		if succ != nil && c.varBelowLenEdge(f, cand, x, blk, succ) {
+			return true
+		}
+	}
+	if ph, ok := a.(*ssa.Phi); ok && (ph.Block() == blk || ph.Block().Dominates(blk)) {
+		for i, e := range ph.Edges {
+			pb := ph.Block().Preds[i]
+			if !c.belowLenDeep(f, e, x, pb, ph.Block(), depth+1) {
+				return false
+			}
+		}
+		return len(ph.Edges) > 0
+	}
+	return false
+}
+
+// varBelowLenEdge: the fact i < len(x) is established by the branch at the end of blk towards succ.
+func (c *Ctx) varBelowLenEdge(f *ssa.Function, i, x ssa.Value, blk, succ *ssa.BasicBlock) bool {
+	if len(blk.Instrs) == 0 {
+		return false
+	}
+	ifi, ok := blk.Instrs[len(blk.Instrs)-1].(*ssa.If)
+	if !ok {
+		return false
+	}
+	bo, ok := ifi.Cond.(*ssa.BinOp)
+	if !ok {
+		return false
+	}
+	isLen := func(v ssa.Value) bool {
+		k, ok := v.(*ssa.Call)
+		return ok && calleeName(k) == "builtin:len" && sameLen(k.Call.Args[0], x)
+	}
+	taken := blk.Succs[0] == succ
+	switch {
+	case bo.Op == token.LSS && bo.X == i && isLen(bo.Y), bo.Op == token.GTR && bo.Y == i && isLen(bo.X):
+		return taken
+	case bo.Op == token.GEQ && bo.X == i && isLen(bo.Y), bo.Op == token.LEQ && bo.Y == i && isLen(bo.X):
+		return !taken
+	}
+	return false
 }
